@@ -122,6 +122,17 @@ func emitPath(cw *caseWriter, mk func() jsonline.Row, op, path string, val func(
 	cw.emit("path "+before+" "+op+" "+path+" "+valS, true, "path", "C18", before, op, hxs(path), valS, extStr(ext), impl)
 }
 
+// takenFrom parses a document and returns the Value found at a path of it.
+func takenFrom(doc, path string) interface{} {
+	src := jsonline.NewRow()
+	_ = src.UnmarshalJSON([]byte(doc))
+	v, ok := src.GetValueAtPath(path)
+	if !ok {
+		return nil
+	}
+	return v
+}
+
 func genC18(cw *caseWriter, seed uint64, tier string) {
 	r := newRng(seed)
 	docs := pathDocs()
@@ -147,7 +158,11 @@ func genC18(cw *caseWriter, seed uint64, tier string) {
 		n = 150000
 	}
 	vals := []func() interface{}{func() interface{} { return 7 }, func() interface{} { return "x" }, func() interface{} { return nil }, func() interface{} { return json.Number("2.5") },
-		func() interface{} { return []interface{}{1} }, func() interface{} { return map[string]interface{}{"z": 1} }, func() interface{} { r := jsonline.NewRow(); r.Set("new", 1); return r }}
+		func() interface{} { return []interface{}{1} }, func() interface{} { return map[string]interface{}{"z": 1} }, func() interface{} { r := jsonline.NewRow(); r.Set("new", 1); return r },
+		// Values taken out of another, PARSED row (an object, an array, a scalar, a null) and handed over as they are
+		func() interface{} { return takenFrom(`{"obj":{"x":1,"y":{"z":[2,{"w":3}]}}}`, "obj") }, func() interface{} { return takenFrom(`{"obj":{"x":1,"y":{"z":2}}}`, "obj.y") },
+		func() interface{} { return takenFrom(`{"arr":[1,{"k":2}]}`, "arr") }, func() interface{} { return takenFrom(`{"s":"text"}`, "s") }, func() interface{} { return takenFrom(`{"n":null}`, "n") },
+		func() interface{} { return jsonline.NewValueAuto(takenFrom(`{"obj":{"x":1}}`, "obj")) }}
 	for i := 0; i < n; i++ {
 		mk := pick(r, docs)
 		segs := 1 + r.intn(5)
